@@ -304,6 +304,10 @@ func (p cfgPath) Remove(cfg *Config, opt *options) (bool, error) {
 	// resolve config object in case we deal with references
 	tmp, err := cur.toConfig(opt)
 	if err != nil {
+		if _, ok := err.(Error); !ok {
+			ctx := cur.Context()
+			err = raisePathErr(err, cur.meta(), "", ctx.path("."))
+		}
 		return false, err
 	}
 	cur = cfgSub{tmp}
